@@ -2579,4 +2579,313 @@ theorem preflight_iff {d : Diagram} {H : Nat → Option Handler} {mi : MInputs} 
         · rw [h1] at hk; cases hk
       · rfl
 
+/-! ### payloads are opaque: `execute` commutes with any renaming of payloads -/
+
+def TV.mapP (f : Nat → Nat) (v : TV) : TV := ⟨v.dt, v.il, f v.payload⟩
+
+def Val.mapP (f : Nat → Nat) : Val → Val
+  | .raw x => .raw (f x)
+  | .typed t => .typed (t.mapP f)
+
+def mapIns (f : Nat → Nat) (l : List (Nat × TV)) : List (Nat × TV) := l.map fun pv => (pv.1, pv.2.mapP f)
+
+def mapOuts (f : Nat → Nat) (l : List (Nat × Val)) : List (Nat × Val) := l.map fun pv => (pv.1, pv.2.mapP f)
+
+def HOut.mapP (f : Nat → Nat) : HOut → HOut
+  | .ret o => .ret (mapOuts f o)
+  | .raise => .raise
+  | .nondict => .nondict
+
+def Call.mapP (f : Nat → Nat) (c : Call) : Call := ⟨c.name, mapIns f c.inputs⟩
+def Rec.mapP (f : Nat → Nat) (r : Rec) : Rec := ⟨r.name, mapIns f r.inputs, mapIns f r.outputs⟩
+
+def St.mapP (f : Nat → Nat) (st : St) : St :=
+  ⟨fun n => mapIns f (st.minputs n), st.records.map (Rec.mapP f), st.calls.map (Call.mapP f)⟩
+
+def Result.mapP (f : Nat → Nat) (r : Result) : Result :=
+  ⟨r.calls.map (Call.mapP f), match r.out with | .ok recs => .ok (recs.map (Rec.mapP f)) | .error e => .error e⟩
+
+/-- `H'` does to renamed inputs what `H` does to the original ones, renamed -/
+def Commutes (f : Nat → Nat) (H H' : Nat → Option Handler) : Prop :=
+  ∀ n, (H n = none ∧ H' n = none) ∨ ∃ h h', H n = some h ∧ H' n = some h' ∧ ∀ ins, h' (mapIns f ins) = (h ins).mapP f
+
+@[simp] theorem emap_ok {α β ε : Type} (g : α → β) (a : α) : Except.map g (Except.ok a : Except ε α) = .ok (g a) := rfl
+@[simp] theorem emap_error {α β ε : Type} (g : α → β) (e : ε) : Except.map g (Except.error e : Except ε α) = .error e := rfl
+
+theorem coerceOutput_mapP (f : Nat → Nat) (v : Val) (p : PortType) :
+    coerceOutput (v.mapP f) p = (coerceOutput v p).map (TV.mapP f) := by
+  cases v with
+  | raw x => simp [Val.mapP, coerceOutput, TV.mapP]
+  | typed t =>
+    simp only [Val.mapP, coerceOutput, TV.mapP]
+    by_cases h1 : (t.dt != p.dt) = true
+    · simp [h1]
+    · by_cases h2 : (t.il != p.il) = true
+      · simp [h1, h2]
+      · simp [h1, h2, TV.mapP]
+
+theorem coerceInput_mapP (f : Nat → Nat) (v : Val) (p : PortType) :
+    coerceInput (v.mapP f) p = (coerceInput v p).map (TV.mapP f) := by
+  cases v with
+  | raw x => simp [Val.mapP, coerceInput, TV.mapP]
+  | typed t =>
+    simp only [Val.mapP, coerceInput, TV.mapP]
+    by_cases h1 : (t.dt != p.dt) = true
+    · simp [h1]
+    · by_cases h2 : t.il < p.il
+      · simp [h1, h2]
+      · simp [h1, h2, TV.mapP]
+
+theorem hasKey_mapIns (f : Nat → Nat) (k : Nat) (l : List (Nat × TV)) : hasKey k (mapIns f l) = hasKey k l := by
+  simp [hasKey, mapIns, List.any_map, Function.comp_def]
+
+theorem keys_mapOuts (f : Nat → Nat) (l : List (Nat × Val)) : keys (mapOuts f l) = keys l := by
+  simp [keys, mapOuts, List.map_map, Function.comp_def]
+
+theorem lookup_mapOuts (f : Nat → Nat) (p : Nat) : ∀ l : List (Nat × Val),
+    (mapOuts f l).lookup p = (l.lookup p).map (Val.mapP f)
+  | [] => rfl
+  | (k, v) :: r => by
+    simp only [mapOuts, List.map_cons, List.lookup_cons]
+    split
+    · rfl
+    · exact lookup_mapOuts f p r
+
+theorem lookup_mapIns (f : Nat → Nat) (p : Nat) : ∀ l : List (Nat × TV),
+    (mapIns f l).lookup p = (l.lookup p).map (TV.mapP f)
+  | [] => rfl
+  | (k, v) :: r => by
+    simp only [mapIns, List.map_cons, List.lookup_cons]
+    split
+    · rfl
+    · exact lookup_mapIns f p r
+
+theorem setKey_mapIns (f : Nat → Nat) (p : Nat) (tv : TV) : ∀ l : List (Nat × TV),
+    setKey p (tv.mapP f) (mapIns f l) = mapIns f (setKey p tv l)
+  | [] => rfl
+  | (k, v) :: r => by
+    simp only [mapIns, List.map_cons, setKey]
+    split
+    · rfl
+    · simp only [List.map_cons]
+      congr 1
+      exact setKey_mapIns f p tv r
+
+
+theorem extPorts_mapP (f : Nat → Nat) (m : ModuleSpec) : ∀ (ins : List (Nat × Val)) (acc : List (Nat × TV)),
+    extPorts m (mapOuts f ins) (mapIns f acc) = (extPorts m ins acc).map (mapIns f)
+  | [], acc => rfl
+  | (p, v) :: r, acc => by
+    simp only [mapOuts, List.map_cons, extPorts]
+    cases hl : m.inputs.lookup p with
+    | none => rfl
+    | some pt =>
+      simp only [coerceInput_mapP]
+      cases hc : coerceInput v pt with
+      | error e => rfl
+      | ok tv =>
+        simp only [emap_ok, setKey_mapIns]
+        exact extPorts_mapP f m r _
+
+def mapExt (f : Nat → Nat) (ext : List (Nat × List (Nat × Val))) : List (Nat × List (Nat × Val)) :=
+  ext.map fun e => (e.1, mapOuts f e.2)
+
+def mapMI (f : Nat → Nat) (mi : MInputs) : MInputs := fun n => mapIns f (mi n)
+
+theorem extPhase_mapP (f : Nat → Nat) (d : Diagram) : ∀ (ext : List (Nat × List (Nat × Val))) (mi : MInputs),
+    extPhase d (mapExt f ext) (mapMI f mi) = (extPhase d ext mi).map (mapMI f)
+  | [], mi => rfl
+  | (n, ins) :: r, mi => by
+    simp only [mapExt, List.map_cons, extPhase]
+    cases hf : d.findMod n with
+    | none => rfl
+    | some m =>
+      simp only
+      have h := extPorts_mapP f m ins (mi n)
+      simp only [mapMI] at *
+      rw [h]
+      cases hp : extPorts m ins (mi n) with
+      | error e => rfl
+      | ok l =>
+        simp only [emap_ok]
+        have : (fun k => if k = n then mapIns f l else mapIns f (mi k)) =
+            mapMI f (fun k => if k = n then l else mi k) := by
+          funext k; simp only [mapMI]; split <;> rfl
+        rw [this]
+        exact extPhase_mapP f d r _
+
+theorem commutes_isNone {f : Nat → Nat} {H H' : Nat → Option Handler} (hc : Commutes f H H') (n : Nat) :
+    (H' n).isNone = (H n).isNone := by
+  rcases hc n with ⟨h1, h2⟩ | ⟨h, h', h1, h2, -⟩ <;> simp [h1, h2]
+
+theorem preflight_mapP {f : Nat → Nat} {H H' : Nat → Option Handler} (hc : Commutes f H H') (d : Diagram)
+    (mi : MInputs) : preflight d H' (mapMI f mi) = preflight d H mi := by
+  have hm : ∀ m, preflightModule d H' (mapMI f mi) m = preflightModule d H mi m := by
+    intro m
+    simp only [preflightModule, commutes_isNone hc, mapMI, hasKey_mapIns]
+  simp only [preflight, mapMI, hasKey_mapIns]
+  have : preflightModule d H' (mapMI f mi) = preflightModule d H mi := funext hm
+  rw [this]
+
+theorem coerceOutputs_mapP (f : Nat → Nat) (raw : List (Nat × Val)) : ∀ outs : List (Nat × PortType),
+    coerceOutputs (mapOuts f raw) outs = (coerceOutputs raw outs).map (mapIns f)
+  | [] => rfl
+  | (p, pt) :: r => by
+    simp only [coerceOutputs, lookup_mapOuts]
+    cases hl : raw.lookup p with
+    | none => rfl
+    | some v =>
+      simp only [Option.map_some, coerceOutput_mapP]
+      cases hc : coerceOutput v pt with
+      | error e => rfl
+      | ok tv =>
+        simp only [emap_ok, coerceOutputs_mapP f raw r]
+        cases hr : coerceOutputs raw r with
+        | error e => rfl
+        | ok l => rfl
+
+def mapFail (f : Nat → Nat) (x : Fail) : Fail := (x.1.map (Call.mapP f), x.2)
+
+def emapF {α β : Type} (f : Nat → Nat) (g : α → β) : Except Fail α → Except Fail β
+  | .ok a => .ok (g a)
+  | .error x => .error (mapFail f x)
+
+theorem produce_mapP {f : Nat → Nat} {H H' : Nat → Option Handler} (hc : Commutes f H H') (st : St) (m : ModuleSpec) :
+    produce H' (st.mapP f) m =
+      emapF f (fun r => (r.1.map (Call.mapP f), mapIns f r.2)) (produce H st m) := by
+  unfold produce
+  rcases hc m.name with ⟨h1, h2⟩ | ⟨h, h', h1, h2, hh⟩
+  · simp only [h1, h2]; rfl
+  · simp only [h1, h2]
+    have : (st.mapP f).minputs m.name = mapIns f (st.minputs m.name) := rfl
+    rw [this, hh]
+    cases hr : h (st.minputs m.name) with
+    | raise => simp [HOut.mapP, emapF, mapFail, St.mapP, Call.mapP]
+    | nondict => simp [HOut.mapP, emapF, mapFail, St.mapP, Call.mapP]
+    | ret raw =>
+      simp only [HOut.mapP, keys_mapOuts, coerceOutputs_mapP]
+      by_cases hk : sameKeys (keys raw) (keys m.outputs) = true
+      · simp only [hk, Bool.not_true, Bool.false_eq_true, if_false]
+        cases hco : coerceOutputs raw m.outputs with
+        | error e => simp [emapF, mapFail, St.mapP, Call.mapP]
+        | ok outs => simp [emapF, St.mapP, Call.mapP]
+      · simp [hk, emapF, mapFail, St.mapP, Call.mapP]
+
+theorem St.mapP_add (f : Nat → Nat) (st : St) (m p : Nat) (v : TV) :
+    (⟨(st.mapP f).minputs.add m p (v.mapP f), (st.mapP f).records, (st.mapP f).calls⟩ : St) =
+      St.mapP f ⟨st.minputs.add m p v, st.records, st.calls⟩ := by
+  simp only [St.mapP]
+  congr 1
+  funext n
+  unfold MInputs.add
+  by_cases h : n = m
+  · simp [h, mapIns]
+  · simp [h]
+
+theorem deliver_mapP (f : Nat → Nat) (d : Diagram) (enforce : Bool) (outs : List (Nat × TV)) :
+    ∀ (ws : List Wire) (st : St),
+      deliver d enforce (mapIns f outs) ws (st.mapP f) = emapF f (St.mapP f) (deliver d enforce outs ws st)
+  | [], st => rfl
+  | w :: ws, st => by
+    simp only [deliver, lookup_mapIns]
+    cases hl : outs.lookup w.srcP with
+    | none => simp [emapF, mapFail, St.mapP]
+    | some v =>
+      simp only [Option.map_some]
+      cases hp : d.inPort w.dstM w.dstP with
+      | none => simp [emapF, mapFail, St.mapP]
+      | some pt =>
+        have hk : hasKey w.dstP ((st.mapP f).minputs w.dstM) = hasKey w.dstP (st.minputs w.dstM) := by
+          simp [St.mapP, hasKey_mapIns]
+        simp only [hk]
+        have e1 : (v.mapP f).dt = v.dt := rfl
+        have e2 : (v.mapP f).il = v.il := rfl
+        simp only [e1, e2]
+        split
+        · simp [emapF, mapFail, St.mapP]
+        · split
+          · simp [emapF, mapFail, St.mapP]
+          · split
+            · simp [emapF, mapFail, St.mapP]
+            · rw [St.mapP_add]
+              exact deliver_mapP f d enforce outs ws _
+
+theorem runModule_mapP {f : Nat → Nat} {H H' : Nat → Option Handler} (hc : Commutes f H H') (d : Diagram)
+    (enforce : Bool) (st : St) (m : ModuleSpec) :
+    runModule d H' enforce (st.mapP f) m = emapF f (St.mapP f) (runModule d H enforce st m) := by
+  unfold runModule
+  rw [produce_mapP hc]
+  cases hp : produce H st m with
+  | error x => rfl
+  | ok r =>
+    obtain ⟨calls, outs⟩ := r
+    simp only [emapF]
+    have : (⟨(st.mapP f).minputs, (st.mapP f).records ++ [⟨m.name, (st.mapP f).minputs m.name, mapIns f outs⟩],
+        calls.map (Call.mapP f)⟩ : St) = St.mapP f ⟨st.minputs, st.records ++ [⟨m.name, st.minputs m.name, outs⟩], calls⟩ := by
+      simp [St.mapP, Rec.mapP]
+    rw [this]
+    exact deliver_mapP f d enforce outs _ _
+
+theorem order_mapP (f : Nat → Nat) (st : St) : (st.mapP f).order = st.order := by
+  simp [St.order, St.mapP, Rec.mapP, List.map_map, Function.comp_def]
+
+theorem ready_mapP (f : Nat → Nat) (st : St) (m : ModuleSpec) : ready (st.mapP f) m = ready st m := by
+  simp [ready, St.mapP, hasKey_mapIns]
+
+theorem pass_mapP {f : Nat → Nat} {H H' : Nat → Option Handler} (hc : Commutes f H H') (d : Diagram) (enforce : Bool) :
+    ∀ (ms : List ModuleSpec) (st : St),
+      pass d H' enforce ms (st.mapP f) = emapF f (St.mapP f) (pass d H enforce ms st)
+  | [], st => rfl
+  | m :: ms, st => by
+    simp only [pass, order_mapP, ready_mapP]
+    split
+    · exact pass_mapP hc d enforce ms st
+    · split
+      · exact pass_mapP hc d enforce ms st
+      · rw [runModule_mapP hc]
+        cases hr : runModule d H enforce st m with
+        | error x => rfl
+        | ok st' => exact pass_mapP hc d enforce ms st'
+
+theorem loop_mapP {f : Nat → Nat} {H H' : Nat → Option Handler} (hc : Commutes f H H') (d : Diagram) (enforce : Bool) :
+    ∀ (fuel : Nat) (st : St),
+      loop d H' enforce fuel (st.mapP f) = emapF f (St.mapP f) (loop d H enforce fuel st)
+  | 0, st => by
+    simp only [loop, order_mapP]
+    split <;> simp [emapF, mapFail, St.mapP]
+  | fuel + 1, st => by
+    simp only [loop, order_mapP]
+    split
+    · rw [pass_mapP hc]
+      cases hp : pass d H enforce d.modules st with
+      | error x => rfl
+      | ok st' =>
+        simp only [emapF, order_mapP]
+        split
+        · simp [mapFail, St.mapP]
+        · exact loop_mapP hc d enforce fuel st'
+    · rfl
+
+/-- `execute` never looks into a payload: renaming the payloads of the external inputs and of everything the
+    handlers return renames the payloads in the report and in the invocation log, and changes nothing else -/
+theorem execute_mapP {f : Nat → Nat} {H H' : Nat → Option Handler} (hc : Commutes f H H') (d : Diagram)
+    (ext : List (Nat × List (Nat × Val))) (enforce : Bool) :
+    execute d H' (mapExt f ext) enforce = (execute d H ext enforce).mapP f := by
+  unfold execute
+  have hx : extPhase d (mapExt f ext) (fun _ => []) = (extPhase d ext (fun _ => [])).map (mapMI f) :=
+    extPhase_mapP f d ext (fun _ => [])
+  rw [hx]
+  cases he : extPhase d ext (fun _ => []) with
+  | error e => rfl
+  | ok mi =>
+    simp only [emap_ok, preflight_mapP hc]
+    cases hp : preflight d H mi with
+    | some e => rfl
+    | none =>
+      have h1 : (⟨mapMI f mi, [], []⟩ : St) = St.mapP f ⟨mi, [], []⟩ := rfl
+      simp only [h1, loop_mapP hc]
+      cases hl : loop d H enforce d.modules.length ⟨mi, [], []⟩ with
+      | error x => rfl
+      | ok st => rfl
+
 end Operon.Wiring
